@@ -75,11 +75,12 @@ def histories(tier, rnd):
             for f in failing_variants(t):
                 hs.append({"runs": [f], "B": good, "sharing": sharing, "metadata": MD, "class": "crash:" + f["fault"].split("@")[0]})
             if sharing != "default":
-                for j in range(1, 9):
+                for j in range(1, 9 if tier == "thorough" else 6):
                     hs.append({"runs": [{"sql": script(t), "dialect": "ansi", "provider": "faulty", "fail_at": j, "fault": f"lookup@{j}"}],
                                "B": good, "sharing": sharing, "metadata": MD, "class": "crash:lookup"})
-            for p in PROBES:
-                hs.append({"runs": [good], "B": {"sql": p, "dialect": "ansi"}, "sharing": sharing, "metadata": MD, "class": "teach-probe"})
+            if sharing != "fresh" or tier == "thorough":
+                for p in PROBES:
+                    hs.append({"runs": [good], "B": {"sql": p, "dialect": "ansi"}, "sharing": sharing, "metadata": MD, "class": "teach-probe"})
     n = 250 if tier == "quick" else 5000
     for i in range(n):
         sharing = rnd.choice(["shared", "shared", "default", "fresh"])
@@ -120,7 +121,7 @@ def run(tier):
         scripts = [script(t) for t in TEACH]
         if tier == "quick":
             for i, s in enumerate(scripts[:4]):
-                fp_jobs.append({"case": {"sql": s, "dialect": "ansi"}, "metadata": MD, "points": {"sample": 45, "seed": env.seed() * 10 + i}})
+                fp_jobs.append({"case": {"sql": s, "dialect": "ansi"}, "metadata": MD, "points": {"sample": 35, "seed": env.seed() * 10 + i}})
         else:
             for i, s in enumerate(scripts):
                 fp_jobs.append({"case": {"sql": s, "dialect": "ansi"}, "metadata": MD, "points": "all"})
@@ -131,7 +132,7 @@ def run(tier):
         cs = [c for c in corpus.suite() if c["dialect"] != "non-validating"]
         rnd.shuffle(cs)
         rounds = 2 if tier == "quick" else 12
-        per = 160 if tier == "quick" else 300
+        per = 110 if tier == "quick" else 300
         tjobs = []
         for r in range(rounds):
             sl = cs[(r * per) % len(cs):][:per]
